@@ -30,6 +30,7 @@ func init() {
 
 // RunPair returns the writer trace (tid "<id>/w") followed by the reader trace (tid "<id>/r").
 func RunPair(p *PProg) []Ev {
+	rewindMask()
 	w := p.W
 	w.Seed = p.Seed
 	evs, _, wr := runWriterKeep(&w, nil, p.ID+"/w")
